@@ -44,6 +44,7 @@ type outLeaf struct {
 	path     string // derived path under outs/
 	t        *pgen.Type
 	multiDim bool // reached through an array directly nested in an array
+	how      string
 }
 
 func isLegalFilename(k string) bool {
@@ -94,7 +95,26 @@ func CheckOutsDir(o *Obs, p *pgen.Program, m *pgen.Model, r *Report) {
 			r.add("C13", "top-out-absent", "top-level output "+out.Name+" absent from post-processed _outs", nil)
 			continue
 		}
+		n0 := len(leaves)
 		collectLeaves(p, r, out.Name, out.Type, exp, gv, filepath.Join(outsDir, leafName(out.Name, out.OutName, out.Type)), &leaves, false)
+		how := "other"
+		for _, b := range top.Ret {
+			if b.Id == out.Name {
+				switch {
+				case b.Exp.Kind == pgen.ERefCall && len(b.Exp.Path) == 1:
+					how = "direct-ref"
+				case b.Exp.Kind == pgen.ERefCall && len(b.Exp.Path) > 1:
+					how = "struct-field-projection"
+				case b.Exp.Kind == pgen.ERefSelf:
+					how = "pipeline-input"
+				default:
+					how = "literal"
+				}
+			}
+		}
+		for i := n0; i < len(leaves); i++ {
+			leaves[i].how = how
+		}
 	}
 	// which derived paths share a source file
 	bySource := map[string][]string{}
@@ -125,8 +145,12 @@ func CheckOutsDir(o *Obs, p *pgen.Program, m *pgen.Model, r *Report) {
 			tok := es[4:]
 			gs, ok := l.got.(string)
 			if !ok {
-				r.add("C13", "file-leaf-lost"+cls, fmt.Sprintf("output %s: producer wrote a file (token %s) but the recorded value is %s", l.where, tok, short(l.got)), nil)
-				r.add("C04", "final-file-lost", fmt.Sprintf("top-level file output %s: the producer wrote a file (token %s) but at completion the value is %s", l.where, tok, short(l.got)), nil)
+				why := ""
+				if o.RemovedByVDR(tok) {
+					why = ":removed-by-vdr"
+				}
+				r.add("C13", "file-leaf-lost"+cls+why, fmt.Sprintf("output %s: producer wrote a file (token %s) but the recorded value is %s", l.where, tok, short(l.got)), nil)
+				r.add("C04", "final-file-lost"+why+":"+l.how, fmt.Sprintf("top-level file output %s (%s): the producer wrote a file (token %s) but at completion the value is %s", l.where, l.how, tok, short(l.got)), nil)
 				continue
 			}
 			if ft := readTok(gs); ft != tok {
@@ -136,8 +160,17 @@ func CheckOutsDir(o *Obs, p *pgen.Program, m *pgen.Model, r *Report) {
 			if ft := readTok(l.path); ft != tok {
 				r.add("C13", "file-leaf-outs-path"+cls, fmt.Sprintf("output %s: expected the file at %s (derived from parameter name/type/outname) with content token %q, found %q", l.where, o.Case.Canon(l.path), tok, ft), nil)
 			}
-			// The recorded value must be one of the derived locations of this source file.
-			okLoc := false
+			// The recorded value must be one of the derived locations of this source file
+			// (a file outside the pipestance, or reached through a symlink the stage
+			// made, may keep its own location).
+			okLoc := !strings.HasPrefix(filepath.Clean(gs), o.Case.PsDir+"/") // outside file (content checked above)
+			for rawPath, t2 := range o.tokByPath {
+				if t2 == tok && filepath.Clean(gs) == filepath.Clean(rawPath) {
+					if !strings.HasPrefix(rawPath, o.Case.PsDir+"/") || isSymlink(gs) {
+						okLoc = true
+					}
+				}
+			}
 			for _, cand := range bySource[es] {
 				if filepath.Clean(gs) == filepath.Clean(cand) {
 					okLoc = true
@@ -242,4 +275,9 @@ func collectLeaves(p *pgen.Program, r *Report, where string, t *pgen.Type, exp, 
 			collectLeaves(p, r, where+"."+f.Name, f.Type, em[f.Name], gv, filepath.Join(path, leafName(f.Name, f.OutName, f.Type)), out, multi)
 		}
 	}
+}
+
+func isSymlink(p string) bool {
+	st, err := os.Lstat(p)
+	return err == nil && st.Mode()&os.ModeSymlink != 0
 }
